@@ -188,7 +188,7 @@ Theorem C08_crash_in_delete_is_after : forall d name now coins, disk_inv d ->
 Proof. exact crash_in_delete_is_after. Qed.
 Print Assumptions C08_crash_in_delete_is_after.
 
-(* requests without crash points: row writes, deletes by prefix, RMW, CAM, GC, reads *)
+(* requests without crash points: row writes, DropRowRange (by prefix and delete-all), RMW, CAM, GC, reads *)
 Theorem C08_no_crash_points : forall d c, disk_special (cl_req c) = false -> snd (dstep d c) = [].
 Proof. exact no_crash_points. Qed.
 Print Assumptions C08_no_crash_points.
@@ -198,11 +198,17 @@ Theorem C08_row_requests_no_crash_points : forall d now coins,
   /\ (forall tbl entries, snd (dstep d (mkCall (BMutateRows tbl entries) now coins)) = [])
   /\ (forall tbl key p tm fm, snd (dstep d (mkCall (BCheckAndMutate tbl key p tm fm) now coins)) = [])
   /\ (forall tbl key rules, snd (dstep d (mkCall (BReadModifyWrite tbl key rules) now coins)) = [])
-  /\ (forall tbl pfx, snd (dstep d (mkCall (BDropRowRange tbl false pfx) now coins)) = [])
+  /\ (forall tbl all pfx, snd (dstep d (mkCall (BDropRowRange tbl all pfx) now coins)) = [])
   /\ (forall tbl, snd (dstep d (mkCall (BRunGC tbl) now coins)) = [])
   /\ (forall tbl keys ranges f limit, snd (dstep d (mkCall (BReadRows tbl keys ranges f limit) now coins)) = []).
 Proof. exact row_requests_no_crash_points. Qed.
 Print Assumptions C08_row_requests_no_crash_points.
+
+(* DropRowRange with delete-all deletes the rows in one atomic leveldb batch: no crash point *)
+Theorem C08_clear_has_no_crash_point : forall d name pfx now coins,
+  snd (dstep d (mkCall (BDropRowRange name true pfx) now coins)) = [].
+Proof. exact clear_has_no_crash_point. Qed.
+Print Assumptions C08_clear_has_no_crash_point.
 
 (* ---- repeated crash/restart cycles: states reachable by requests, restarts at request
         boundaries and restarts on the image of any crash point ---- *)
@@ -253,14 +259,16 @@ Proof. exact killed_delete_stays_deleted. Qed.
 Print Assumptions C08_killed_delete_stays_deleted.
 
 (* for every reachable state, also one with a directory holding old rows under that name
-   (C08_dreach_orphan_with_rows): a (re-)created table restarts empty - also at the crash points of
-   the create - and afterwards holds exactly what was written since *)
+   (C08_dreach_orphan_with_rows): a successfully (re-)created table - the names were valid and the
+   table absent - restarts empty - also at the crash points of the create - and afterwards holds
+   exactly what was written since *)
 Theorem C08_recreated_table_restarts_empty : forall d parent tid fams now coins, dreach d ->
   let name := table_name parent tid in
-  alookup name (ds_mem d) = None ->
   let c := mkCall (BCreateTable parent tid fams) now coins in
+  br_code (snd (fst (dstep d c))) = cOK ->
   let d' := fst (fst (dstep d c)) in
-  alookup name (restart (image_of d')) = Some (mkTable (make_fams fams) [])
+  valid_tid tid = true /\ valid_parent parent = true /\ alookup name (ds_mem d) = None
+  /\ alookup name (restart (image_of d')) = Some (mkTable (make_fams fams) [])
   /\ ds_mem d' = set_table (ds_mem d) name (mkTable (make_fams fams) [])
   /\ (forall nm im, In (nm, im) (snd (dstep d c)) ->
         alookup name (restart im) = None \/ alookup name (restart im) = Some (mkTable (make_fams fams) []))
@@ -280,8 +288,7 @@ Print Assumptions C08_dropped_prefix_absent.
 Theorem C08_cleared_table_restarts_empty : forall d name pfx now coins t, dreach d -> alookup name (ds_mem d) = Some t ->
   let c := mkCall (BDropRowRange name true pfx) now coins in
   alookup name (restart (image_of (fst (fst (dstep d c))))) = Some (mkTable (t_fams t) [])
-  /\ forall nm im, In (nm, im) (snd (dstep d c)) ->
-       alookup name (restart im) = Some t \/ alookup name (restart im) = Some (mkTable (t_fams t) []).
+  /\ snd (dstep d c) = [].
 Proof. exact cleared_table_restarts_empty. Qed.
 Print Assumptions C08_cleared_table_restarts_empty.
 
@@ -312,7 +319,6 @@ Theorem C08_crash_point_names : forall d c,
                                                    (* RemoveAll(dir), SetTableMeta, then newDiskDb(nuke) *)
   | BDeleteTable _ => [s_delete_undefined]                             (* Remove(definition) | RemoveAll(dir) *)
   | BModifyFamilies _ _ => [s_meta_tmp; s_meta_renamed]                (* SetTableMeta *)
-  | BDropRowRange _ true _ => [s_clear_closed; s_db_removed]           (* Clear: Close, then newDiskDb(nuke) *)
   | _ => []
   end.
 Proof. exact crash_point_names. Qed.
@@ -341,7 +347,7 @@ Print Assumptions C08_dcheck_next_segment_dreach.
 Example C08_prog_acks :
   map (fun r => (br_code (fst r), map fst (snd r))) (snd (drun init_dstate ex_prog))
   = [ (cOK, [s_create_cleaned; s_meta_tmp; s_meta_renamed; s_db_removed]); (cOK, []); (cOK, []);
-      (cOK, [s_clear_closed; s_db_removed]); (cOK, []); (cOK, [s_meta_tmp; s_meta_renamed]); (cOK, [s_delete_undefined]);
+      (cOK, []); (cOK, []); (cOK, [s_meta_tmp; s_meta_renamed]); (cOK, [s_delete_undefined]);
       (cOK, [s_create_cleaned; s_meta_tmp; s_meta_renamed; s_db_removed]); (cOK, []) ].
 Proof. vm_compute. reflexivity. Qed.
 
@@ -365,7 +371,7 @@ Example C08_prog_crash_points :
   map (fun r => map (fun p => ex_view (restart (snd p))) (snd r)) (snd (drun init_dstate ex_prog))
   = [ [ []; []; [(ex_name, ([[102%N]; [103%N]], []))]; [(ex_name, ([[102%N]; [103%N]], []))] ];
       []; [];
-      [ [(ex_name, ([[102%N]; [103%N]], [[97%N]; [98%N]]))]; [(ex_name, ([[102%N]; [103%N]], []))] ];
+      [];
       [];
       [ [(ex_name, ([[102%N]; [103%N]], [[99%N]]))]; [(ex_name, ([[102%N]; [103%N]; [104%N]], [[99%N]]))] ];
       [ [] ];
@@ -435,3 +441,35 @@ Example C08_double_kill_table_empty :
                                  (Some s_meta_renamed)
   /\ alookup ex_name (restart (image_of ex_before_delete)) = Some (mkTable (make_fams ex_fg) ex_row97).
 Proof. exact double_kill_table_empty. Qed.
+
+(* ---- table names: every table of every state of the disk engine - after any requests, restarts
+        and kills inside requests - has a valid name
+        projects/<project>/instances/<instance>/tables/<table id> ---- *)
+Theorem C08_reachable_names_valid : forall d, dreach d ->
+  forall n, In n (map fst (ds_mem d)) -> valid_table_name n.
+Proof. exact dreach_names_valid. Qed.
+Print Assumptions C08_reachable_names_valid.
+
+(* the definition files too *)
+Theorem C08_reachable_meta_names_valid : forall d n, dreach d -> In n (map fst (ds_meta d)) -> valid_table_name n.
+Proof. exact dreach_meta_names_valid. Qed.
+Print Assumptions C08_reachable_meta_names_valid.
+
+(* hence the directory of one table never lies inside the directory of another *)
+Theorem C08_reachable_tables_not_nested : forall d n1 n2 t1 t2, dreach d ->
+  alookup n1 (ds_mem d) = Some t1 -> alookup n2 (ds_mem d) = Some t2 -> n1 <> n2 ->
+  has_prefix (n2 ++ s_slash1) (n1 ++ s_slash1) = false.
+Proof. exact dreach_tables_not_nested. Qed.
+Print Assumptions C08_reachable_tables_not_nested.
+
+(* a server started on a directory it did not write serves whatever definition files it finds: the
+   statement is about the images the engine itself produces *)
+Example C08_boot_arbitrary_image_names_refuted :
+  let im := mkImage [([46%N; 46%N], [])] [] in
+  map fst (ds_mem (boot im)) = [[46%N; 46%N]] /\ valid_table_nameb [46%N; 46%N] = false.
+Proof. exact boot_arbitrary_image_names_refuted. Qed.
+
+Example C08_reachable_names_valid_nonvacuous :
+  let d := fst (drun init_dstate [ex_create ex_fg; ex_put 97 102]) in
+  dreach d /\ map fst (ds_mem d) = [ex_name] /\ valid_table_nameb ex_name = true.
+Proof. exact dreach_names_valid_nonvacuous. Qed.
